@@ -484,6 +484,11 @@ impl Prop for C03 {
             let n = match visit % 4 {
                 1 => base_n + 7 + r.below(990) as usize,
                 3 => (base_n / 4096 + 1) * 4096,
+                // N-D bulk draws: an exact multiple of floor(65536 / d) rows (block height of a blocked bulk path)
+                2 if *law == "MVN" => {
+                    let blk = (65536 / (base[0] as usize).max(1)).max(1);
+                    (base_n / blk).max(1) * blk
+                }
                 _ => base_n,
             };
             (n, vec![])
@@ -499,6 +504,10 @@ impl Prop for C03 {
             let others: Vec<&Vec<f64>> = cs.iter().filter(|(l, p)| l == law && p != base).map(|(_, p)| p).collect();
             if !others.is_empty() {
                 via = fbs(others[r.below(others.len() as u64) as usize]);
+            }
+            // Binomial: half of these visits start from the exact mirror image (same n, 1 - p)
+            if *law == "Binomial" && params[1] > 0.0 && params[1] < 1.0 && r.chance(0.5) {
+                via = fbs(&[params[0], 1.0 - params[1]]);
             }
         }
         let is_default_cell = *law != "MVN" && slice_bits_eq(&params, &super::c18::default_params_pub(law)).is_none();
